@@ -2,7 +2,14 @@
 package c14
 
 import (
+	"bytes"
+
+	"github.com/google/pprof/verif/internal/ref"
+	"os"
+	"path/filepath"
+
 	"fmt"
+	"github.com/google/pprof/verif/internal/drv"
 	"math/rand"
 
 	"github.com/google/pprof/profile"
@@ -38,6 +45,91 @@ func run(printer func(*rand.Rand) *legacy.Doc) func(c *harness.Ctx) harness.Resu
 	}
 }
 
+// the same documents opened by the real driver: pprof -proto <file> must carry what the parser
+// produced (same expectations), and -raw / -traces must work on it
+func runDriver(c *harness.Ctx) harness.Result {
+	d := legacy.Random(c.Rng)
+	res := harness.Result{NonTrivial: d.Records > 0, Sig: fmt.Sprintf("driver %s n=%d %x", d.Kind, d.Records, fnv(d.Bytes)), Sample: map[string]any{"kind": d.Kind, "via": "pprof -proto <file>"}}
+	drv.IsolateEnv(c.Tmp)
+	path := filepath.Join(c.Tmp, "legacy.prof")
+	if err := os.WriteFile(path, d.Bytes, 0o644); err != nil {
+		return harness.Result{Verdict: harness.Inconclusive, Detail: err.Error()}
+	}
+	render := func(format string) (string, string) {
+		s := &drv.Session{Flags: &drv.Flags{Bools: map[string]bool{format: true, "addresses": true, "flat": true}, Strs: map[string]string{"output": "out", "symbolize": "none"}, Args: []string{path}}}
+		rr := s.Run()
+		if rr.Panic != "" {
+			return "", "panic: " + rr.Panic
+		}
+		if rr.Err != nil {
+			return "", fmt.Sprintf("error: %v %v", rr.Err, s.UI.Errs)
+		}
+		if bf := s.Writer.Files["out"]; bf != nil {
+			return bf.String(), ""
+		}
+		return "", "no output"
+	}
+	out, e := render("proto")
+	c.Stat("driver_runs", 1)
+	if e != "" {
+		res.Verdict, res.Detail = harness.Violated, fmt.Sprintf("pprof -proto on a well-formed %s document: %s\n%q", d.Kind, e, d.Bytes)
+		return res
+	}
+	q, err := profile.ParseData([]byte(out))
+	if err != nil {
+		return harness.Violation("pprof -proto output of a %s document is not a profile: %v", d.Kind, err)
+	}
+	// reference: what the parser makes of the document (checked against the documented values by
+	// the other parts), after one codec round trip (proto3 cannot carry a numeric label 0 without unit)
+	p0, err := profile.ParseData(d.Bytes)
+	if err != nil {
+		return res // reported by the family's own part
+	}
+	var b0 bytes.Buffer
+	p0.WriteUncompressed(&b0)
+	p1, err := profile.ParseUncompressed(b0.Bytes())
+	if err != nil {
+		return res
+	}
+	line := func(p *profile.Profile) []string {
+		var out []string
+		for _, rec := range ref.View(p) {
+			out = append(out, fmt.Sprintf("%v %s || %s", rec.Values, rec.StackKey(), rec.LabelKey()))
+		}
+		return out
+	}
+	hdr := func(p *profile.Profile) string {
+		pt := ""
+		if p.PeriodType != nil {
+			pt = p.PeriodType.Type + "/" + p.PeriodType.Unit
+		}
+		var st []string
+		for _, t := range p.SampleType {
+			st = append(st, t.Type+"/"+t.Unit)
+		}
+		return fmt.Sprintf("types=%v period=%d %s", st, p.Period, pt)
+	}
+	if len(p1.Mapping) == 0 {
+		// documented: a profile without mappings gets one fake mapping covering everything
+		for _, l := range q.Location {
+			l.Mapping = nil
+		}
+	}
+	want, got := line(p1), line(q)
+	if hdr(p1) != hdr(q) || fmt.Sprint(want) != fmt.Sprint(got) {
+		res.Verdict = harness.Violated
+		res.Detail = fmt.Sprintf("%s opened by the driver and saved with -proto differs from what the parser returns\n got: %s %q\nwant: %s %q\ndocument: %q", d.Kind, hdr(q), harness.Trunc(fmt.Sprint(got), 1500), hdr(p1), harness.Trunc(fmt.Sprint(want), 1500), d.Bytes)
+		return res
+	}
+	for _, f := range []string{"raw", "traces"} {
+		if _, e := render(f); e != "" {
+			res.Verdict, res.Detail = harness.Violated, fmt.Sprintf("pprof -%s on a well-formed %s document: %s\n%q", f, d.Kind, e, d.Bytes)
+			return res
+		}
+	}
+	return res
+}
+
 func fnv(b []byte) uint64 {
 	h := uint64(14695981039346656037)
 	for _, c := range b {
@@ -51,7 +143,7 @@ func init() {
 		ID:    "C14",
 		Level: "exploration",
 		Rule: "documents printed from an arbitrary model by one printer per legacy family (heap: heap/heap_v2/heapz_v2/heapprofile/growth/fragmentation with and without alloc columns and rate; Go count; contentionz/mutex/contention with optional cycles/second, sampling period, ms since reset; threadz with 'same as previous thread'; binary CPU 32/64-bit x LE/BE with near-universal second frame and duplicated leaf; Java heapz/contentionz), with comment/blank lines and an optional trailing memory map in /proc/maps or brief form; " +
-			"oracle: one sample per record in input order, addresses (call sites -1, leaf kept where documented, signal frame / duplicated leaf removed), values (raw, x period, unsampled 1/(1-exp(-size/rate)) in float64), bytes label, sample/period types, mapping assignment by containment. non-trivial = at least one record; distinct = distinct document bytes",
+			"part driver: documents of a random family opened as files by the real driver; the profile saved with -proto must hold the samples (order, values, frames with binary, labels) and header the parser returns, and -raw / -traces must succeed. oracle: one sample per record in input order, addresses (call sites -1, leaf kept where documented, signal frame / duplicated leaf removed), values (raw, x period, unsampled 1/(1-exp(-size/rate)) in float64), bytes label, sample/period types, mapping assignment by containment. non-trivial = at least one record; distinct = distinct document bytes",
 		Assumptions: []string{"memory maps stay in the documented regime: non-adjacent mappings, main binary at 0x400000 offset 0 (no merging / fix-up heuristics)", "addresses >= 1 so that -1 does not wrap"},
 		Parts: []harness.Part{
 			{Name: "heap", Quick: 6000, Thor: 300000, Run: run(legacy.Heap)},
@@ -60,6 +152,7 @@ func init() {
 			{Name: "threadz", Quick: 2000, Thor: 100000, Run: run(legacy.Thread)},
 			{Name: "cpu", Quick: 2000, Thor: 100000, Run: run(legacy.CPU)},
 			{Name: "java", Quick: 2000, Thor: 100000, Run: run(legacy.Java)},
+			{Name: "driver", Quick: 800, Thor: 30000, Run: runDriver},
 		},
 		MinNonTrivial: func(string) int { return 1000 },
 	})
